@@ -30,6 +30,12 @@ pub enum Sess {
     /// HTTP/2 session with `n` open tunnels (each downloaded `chunk` bytes); both ends finish
     /// the tunnels `end_ms` after the submission
     H2Tunnels { n: u8, chunk: u16, end_ms: u16 },
+    /// HTTP/1.1 connection on the speedtest / reverse-proxy channel without a request
+    SpeedIdle,
+    RpIdle,
+    /// HTTP/1.1 speedtest download of 1 MiB in progress: the client (transport buffer `buf` bytes)
+    /// has read `pre_read` body bytes and resumes reading `resume_ms` after the submission
+    SpeedDownload { buf: u16, pre_read: u16, resume_ms: u16 },
 }
 
 #[derive(Serialize, Deserialize, Debug, Clone)]
@@ -162,11 +168,73 @@ async fn client(
     let mut seen = Seen::default();
     let base_port = 1000 + (i as u16) * 16;
     match s {
-        Sess::H1Idle | Sess::PingIdle => {
+        Sess::H1Idle | Sess::PingIdle | Sess::SpeedIdle | Sess::RpIdle => {
             let mut io = io;
             let _ = ready.send(()).await;
             wait_go(&mut go).await;
             read_to_eof(&mut io, &mut seen, 0, false).await;
+        }
+        Sess::SpeedDownload { pre_read, resume_ms, .. } => {
+            let mut io = io;
+            if let Err(e) = io.write_all(b"GET /1mb.bin HTTP/1.1\r\nHost: speed.x\r\n\r\n").await {
+                seen.error = Some(e.to_string());
+                return seen;
+            }
+            let mut head = vec![];
+            let mut b = [0u8; 1];
+            while !head.ends_with(b"\r\n\r\n") {
+                match tokio::time::timeout(Duration::from_secs(10), io.read(&mut b)).await {
+                    Ok(Ok(1)) => head.push(b[0]),
+                    other => {
+                        seen.error = Some(format!("no response head: {:?} after {:?}", other, String::from_utf8_lossy(&head)));
+                        return seen;
+                    }
+                }
+            }
+            if !head.starts_with(b"HTTP/1.1 200") {
+                seen.error = Some(format!("GET /1mb.bin answered {:?}", String::from_utf8_lossy(&head)));
+                return seen;
+            }
+            let mut got = vec![0u8; pre_read as usize];
+            if pre_read > 0 {
+                if let Ok(Ok(_)) = tokio::time::timeout(Duration::from_secs(10), io.read_exact(&mut got)).await {
+                } else {
+                    seen.error = Some("download before the submission".into());
+                    return seen;
+                }
+            }
+            tokio::time::sleep(Duration::from_millis(5)).await;
+            let _ = ready.send(()).await;
+            let t0 = wait_go(&mut go).await;
+            tokio::time::sleep_until(t0 + Duration::from_millis(resume_ms as u64)).await;
+            // the body is all zeros: whatever still arrives must be, and no more than a MiB in all
+            let mut buf = vec![0u8; 8192];
+            let mut total = pre_read as usize;
+            seen.intact = got.iter().all(|x| *x == 0);
+            loop {
+                match tokio::time::timeout(Duration::from_secs(60), io.read(&mut buf)).await {
+                    Err(_) => {
+                        seen.end = "still open after 60 s".into();
+                        break;
+                    }
+                    Ok(Ok(0)) => {
+                        seen.closed = true;
+                        seen.end = "eof".into();
+                        break;
+                    }
+                    Ok(Ok(n)) => {
+                        seen.intact &= buf[..n].iter().all(|x| *x == 0);
+                        total += n;
+                    }
+                    Ok(Err(e)) => {
+                        seen.closed = true;
+                        seen.end = format!("error: {}", e);
+                        break;
+                    }
+                }
+            }
+            seen.intact &= total <= 1 << 20;
+            seen.received = total;
         }
         Sess::H1Tunnel { chunks, pre_read, resume_ms, .. } => {
             let mut io = io;
@@ -325,7 +393,13 @@ pub struct SessionSuite;
 fn run_case(c: &Case) -> Verdict {
     aio::block_on_paused(async move {
         aio::skew_clock().await;
-        let spec = CoreSpec { ping_hosts: vec![("ping.x".into(), 1)], ..CoreSpec::default() };
+        let spec = CoreSpec {
+            ping_hosts: vec![("ping.x".into(), 1)],
+            speedtest: true,
+            speed_hosts: vec![("speed.x".into(), 2)],
+            reverse_proxy: Some(("127.0.0.1:9".parse().unwrap(), "/api".into())),
+            ..CoreSpec::default()
+        };
         let world: World = spec.build().expect("core");
         let scripted = Scripted::new(|_| Outcome::Silent);
         let _guard = scripted.install(&world);
@@ -339,6 +413,9 @@ fn run_case(c: &Case) -> Verdict {
                 Sess::PingIdle => (Proto::Http1, ChannelView::Ping, "ping.x", 4096),
                 Sess::H1Tunnel { buf, .. } => (Proto::Http1, ChannelView::Tunnel, "main.x", (*buf as usize).max(256)),
                 Sess::H2Idle(_) | Sess::H2Tunnels { .. } => (Proto::Http2, ChannelView::Tunnel, "main.x", 64 * 1024),
+                Sess::SpeedIdle => (Proto::Http1, ChannelView::Speedtest, "speed.x", 4096),
+                Sess::RpIdle => (Proto::Http1, ChannelView::ReverseProxy, "rp.x", 4096),
+                Sess::SpeedDownload { buf, .. } => (Proto::Http1, ChannelView::Speedtest, "speed.x", (*buf as usize).max(256)),
             };
             let (io, server) = world.serve(proto, channel, sni, None, crate::engine::world::peer_v4(), buf);
             let f = finished.clone();
@@ -439,7 +516,7 @@ impl Suite for SessionSuite {
         "session-wind-down"
     }
     fn rule(&self) -> String {
-        "1-4 real sessions over in-memory transports (virtual clock, scripted forwarder) in generated states - HTTP/1.1 tunnel-channel or ping-channel connection without a request, HTTP/1.1 tunnel whose destination pushed 1-6 chunks of 1-6000 bytes into a 256-8192 byte transport of which the client has read a generated part and resumes reading 0-3000 ms after the submission, HTTP/2 session after 0-2 health checks, HTTP/2 session with 1-3 open tunnels that both ends finish 0-3000 ms after the submission - then Shutdown::submit() at a generated moment and completion() awaited the way main.rs does; oracle: every session handler ends, every client sees the end, HTTP/2 clients see a GOAWAY frame, HTTP/1.1 downloads delivered during the wind-down are a prefix of the destination's stream, completion() returns neither before the last handler has ended nor more than 5 ms after it; non-trivial = a session that cannot finish at once (unread download or open tunnels) or several sessions".into()
+        "1-4 real sessions over in-memory transports (virtual clock, scripted forwarder) in generated states - HTTP/1.1 tunnel-, ping-, speedtest- or reverse-proxy-channel connection without a request, HTTP/1.1 speedtest download of 1 MiB of which the client has read 0-20000 bytes and resumes reading 0-3000 ms after the submission, HTTP/1.1 tunnel whose destination pushed 1-6 chunks of 1-6000 bytes into a 256-8192 byte transport of which the client has read a generated part and resumes reading 0-3000 ms after the submission, HTTP/2 session after 0-2 health checks, HTTP/2 session with 1-3 open tunnels that both ends finish 0-3000 ms after the submission - then Shutdown::submit() at a generated moment and completion() awaited the way main.rs does; oracle: every session handler ends, every client sees the end, HTTP/2 clients see a GOAWAY frame, HTTP/1.1 downloads delivered during the wind-down are a prefix of the destination's stream, completion() returns neither before the last handler has ended nor more than 5 ms after it; non-trivial = a session that cannot finish at once (unread download or open tunnels) or several sessions".into()
     }
     fn strategy(&self, _: Tier) -> BoxedStrategy<Case> {
         let s = prop_oneof![
@@ -449,6 +526,9 @@ impl Suite for SessionSuite {
                 .prop_map(|(chunks, buf, pre_read, resume_ms)| Sess::H1Tunnel { chunks, buf, pre_read, resume_ms }),
             2 => (0u8..3).prop_map(Sess::H2Idle),
             3 => (1u8..4, 1u16..20000, 0u16..3000).prop_map(|(n, chunk, end_ms)| Sess::H2Tunnels { n, chunk, end_ms }),
+            1 => Just(Sess::SpeedIdle),
+            1 => Just(Sess::RpIdle),
+            3 => (256u16..8192, 0u16..20000, 0u16..3000).prop_map(|(buf, pre_read, resume_ms)| Sess::SpeedDownload { buf, pre_read, resume_ms }),
         ];
         (prop::collection::vec(s, 1..=4), 0u16..300)
             .prop_map(|(sessions, submit_at_ms)| Case { sessions, submit_at_ms })
@@ -477,6 +557,11 @@ impl Suite for SessionSuite {
                     v.push("h2-open-tunnels");
                     slow = true;
                 }
+                Sess::SpeedIdle | Sess::RpIdle => v.push("speedtest-or-reverse-proxy-idle"),
+                Sess::SpeedDownload { .. } => {
+                    v.push("speedtest-download-in-progress");
+                    slow = true;
+                }
             }
         }
         v.sort();
@@ -487,7 +572,7 @@ impl Suite for SessionSuite {
         v
     }
     fn required_classes(&self) -> Vec<&'static str> {
-        vec!["nontrivial", "h1-idle", "ping-idle", "h1-tunnel", "h1-tunnel-more-than-the-transport-holds", "h2-idle", "h2-open-tunnels"]
+        vec!["nontrivial", "h1-idle", "ping-idle", "h1-tunnel", "h1-tunnel-more-than-the-transport-holds", "h2-idle", "h2-open-tunnels", "speedtest-or-reverse-proxy-idle", "speedtest-download-in-progress"]
     }
     fn check(&self, c: &Case) -> Verdict {
         run_case(c)
